@@ -31,7 +31,7 @@ CHECKS = {
 
 CHECKS["C15"] = dict(level="model_checking", design="4/C15, 3.5", technique="finite character automaton of the path check model-checked by TLC for strings of every length; exhaustive replay of all strings <= 4/5 over the path alphabet and of manifests in all YAML styles of the presentation model into TransformModFile",
     text="spec/ModFile.tla states the percent-decoder x monitors as a finite automaton; TLC visits all its reachable states, i.e. input strings of every length, and AcceptedPathSafe holds; PathsOK ties the automaton to the functional transcription of the code on all strings <= 4 (quick) / 5 (thorough) over the 15-character alphabet. Every such string (also with .fga appended), 17k-228k manifests from an entry pool x 96 YAML styles, and seeded random longer strings are run through the real TransformModFile: verdict, returned bytes, zero-based line/column of schema, contents and every item, and one error per offending entry at its position must equal what TLC computed; safety is re-evaluated on every accepted real value. OddManifests (a node whose explicit tag contradicts its kind: never a list of path strings) must be rejected; OddSchemas (YAML numbers equal to 1.2, other spellings of the text) may only be accepted with schema '1.2'.",
-    note="Trusted: TLC; the YAML presentation model (positions claimed only for untagged plain/quoted scalars in block or flow sequences; the position of a quoted scalar is its opening quote). Bounded: strings <= 4/5 exhaustively, longer ones sampled; anchors/aliases/block scalars are not generated.")
+    note="Trusted: TLC; the YAML presentation model (positions claimed only for untagged plain/quoted scalars in block or flow sequences; the position of a quoted scalar is its opening quote). Bounded: strings <= 4/5 exhaustively, longer ones sampled; anchors, aliases, block and tagged scalars come from a fixed list (Styled) and are checked without positions.")
 CHECKS["C18"] = dict(level="model_checking", design="4/C18, 3.6", technique="rule strings transcribed as regex items with a matcher in TLA+; TLC checks the decomposition/limit invariants on all class strings and boundary lengths; verdicts replayed against the nine real validators; rule strings of Go/TS/Java validated as a configuration trace",
     text="spec/Rules.tla carries the five rule strings as regular-expression items and composes them per validator like the code; TLC checks UniqueDecomposition, UserExactlyOneKind, NoSeparatorInParts, LimitsExact on every string over the character-class alphabet up to the stated lengths and on ~100 boundary-length strings (254/255, 50/51, 256/257, multi-byte). Every string, instantiated with several representatives per class, is passed to the nine real validators: verdict vectors must equal TLC's and the decomposition clauses are re-evaluated on the real part validators. The rule strings and composition patterns extracted from the Go, TypeScript and Java sources are validated by TLC against the specification (RuleStringsAgree, PatternsAgree).",
     note="Trusted: TLC, the class alphabet (one symbol per class of characters the rules distinguish: RE2 \\s = blank \\t \\n \\f \\r; \\v and Unicode spaces are not generated). JS/Java: static comparison of rule strings and composition patterns only - neither runtime is installed.")
